@@ -80,8 +80,10 @@ CompleteProbe(c, s, q, host, isTarget, now) ==
         ELSE s
 
 \* recv_response() for a response that passed `validate`, carrying trace id `id` and sequence q
-\* (id 0 is accepted by every tracer: UDP and TCP carry no identifier)
-CheckTraceId(c, id) == id = c.traceId \/ id = 0
+\* (id 0 stands for "no identifier": UDP and TCP carry none.  As repaired (F7) an ICMP tracer no longer accepts
+\* it; `legacyZero` switches the old behaviour back on for the must-fail instance MC_F7)
+LegacyZero(c) == "legacyZero" \in DOMAIN c /\ c.legacyZero
+CheckTraceId(c, id) == id = c.traceId \/ (id = 0 /\ (c.proto # "icmp" \/ LegacyZero(c)))
 RecvResponse(c, s, id, q, host, isTarget, now) ==
     IF CheckTraceId(c, id) /\ InRound(c, s, q) THEN CompleteProbe(c, s, q, host, isTarget, now) ELSE s
 
